@@ -1,7 +1,8 @@
 _COMMON_TB = [
     'Coq 8.16.1 kernel incl. vm_compute (no native_compute); std++ 1.8.0 gmap/gset',
     'axioms: none (Print Assumptions: closed under the global context)',
-    'correspondence harness harness/evmexec.go + harness/asm.go (hand-assembled generic script contract, call-tree '
+    'correspondence harness harness/stakestates.go (script interpreter over the real keepers, two-fork runner, full store diff) + '
+    'harness/evmexec.go + harness/asm.go (hand-assembled generic script contract, call-tree '
     'encoder, tracer that records which frames failed, reference accounting, metamorphic oracle) + vlib/core.py',
     'modelled, not verified: go-ethereum interpreter (only CALL/SSTORE/LOG/BALANCE/REVERT/SELFDESTRUCT of the script contract are used), '
     'SDK staking/distribution/authz/bank keepers (their effect on balances, delegations, rewards, withdraw address, grants is '
@@ -15,19 +16,34 @@ P = {
     'drivers': [
         {'name': 'evmexec', 'n': {'quick': 500, 'thorough': 20000}, 'args': {'prop': 'C16'}, 'batch': 5000},
         {'name': 'evmquery', 'n': {'quick': 150, 'thorough': 5000}, 'batch': 5000},
+        {'name': 'stakestates', 'n': {'quick': 1500, 'thorough': 40000}, 'batch': 5000, 'shrink_field': 'script'},
     ],
-    'coq_header': 'From HV Require Import Evm.ExecModel.\nFrom Coq Require Import ZArith NArith List.\nImport ListNotations.',
-    'lists': {'cases': {'type': 'ecase * list Z * eobs', 'check': 'mismatches', 'shard': 50}},
+    'coq_header': 'From HV Require Import Staking.StakeModel.\nFrom HV Require Import Evm.ExecModel.\nFrom Coq Require Import ZArith NArith List.\nImport ListNotations.',
+    'lists': {'cases': {'type': 'ecase * list Z * eobs', 'check': 'mismatches', 'shard': 50},
+              'stake': {'type': 'scase', 'check': 'stake_mismatches', 'shard': 400}},
     'search': {'rounds': 3, 'n': 2000},
     'rule': 'a case is a random setup (balances, delegations, allocated rewards, withdraw addresses, staking and ICS-20 transfer grants of the signer) '
             'plus one Ethereum transaction: either EOA -> staking/distribution/ICS-20 precompile or EOA -> script contract running a '
             'random call tree (depth <= 3) of SSTORE / LOG / BALANCE / CALL with value / precompile calls (delegate, undelegate, withdraw, setWithdrawAddress, '
             'claimRewards, ICS-20 transfer) / SELFDESTRUCT (a fifth of the cases self-destruct-heavy: few contracts called repeatedly) / REVERT with catching and '
             'propagating callers, executed by the real EvmKeeper.ApplyTransaction; non-trivial = the transaction succeeded; '
-            'distinct = distinct (setup, program)',
+            'distinct = distinct (setup, program).  stakestates: a case is (signer, script, call): the script (explicit list of '
+            'delegate / undelegate / redelegate / empty-validator / jail / unjail / slash / end-block / advance-time / reward / '
+            'set-withdraw-address / disable-withdraw-address operations, run through the real keepers on three validators) builds an '
+            'unusual staking / distribution state; the call (one of delegate, undelegate, redelegate, cancelUnbondingDelegation, '
+            'withdrawDelegatorRewards, setWithdrawAddress, claimRewards, withdrawValidatorCommission, ICS-20 transfer; amounts 0, dust, '
+            'whole delegation +-1, whole balance +1, entry balance +1, 2^256-1) is run by the signer on two forks of that state: as an '
+            'Ethereum transaction through EvmKeeper.ApplyTransaction and as the native message(s) through the message router; the oracle '
+            'compares success/failure and a full key/value diff of every persistent store except the EVM module\'s own (signer '
+            'sequence masked); non-trivial = both routes succeeded',
     'trusted_base': _COMMON_TB,
-    'assumptions': ['gas price 0, so no fee enters the balance equations', 'one validator, no slashing (tokens = shares)'],
-    'level_text': 'Coq theorem: for every method, argument and state the Cosmos-side effect and success/failure of an owner call equal the native message (before the final StateDB commit); refutation witness K6 for the whole-transaction statement. Every run executes, on forks of the same state, the precompile transaction and the native message through the real message router and diffs balances, delegations, unbondings, rewards, withdraw addresses, grants; the model is compared with the implementation on the same cases',
-    'level_note': 'partial: interpreter and SDK keepers are modelled not verified; the read-only methods (staking delegation / unbondingDelegation / validator, bank balances / totalSupply / supplyOf) are compared with keeper state by the evmquery driver (no model: they are projections); ICS-20: transfer of the bond denomination only',
+    'assumptions': ['gas price 0, so no fee enters the balance equations',
+                    'evmexec / evmquery: one validator, no slashing (tokens = shares); stakestates: three validators, slashing, jailing, '
+                    'unbonding, emptied validators, full entry lists',
+                    'stakestates: the auth accounts of the precompile addresses exist (as after any earlier call on a live chain); the block '
+                    'proposer is a bonded validator; ante handler not run on either route (no fee, no sequence increment)',
+                    'Staking/StakeModel.v does not model the 315-bit LegacyDec overflow panic (compared on amounts up to 2^256-1)'],
+    'level_text': 'Coq theorem: for every method, argument and state the Cosmos-side effect and success/failure of an owner call equal the native message (before the final StateDB commit); refutation witness K6 for the whole-transaction statement. Every run executes, on forks of the same state, the precompile transaction and the native message through the real message router and diffs balances, delegations, unbondings, rewards, withdraw addresses, grants; the model is compared with the implementation on the same cases. Staking share arithmetic (Staking/StakeModel.v: validator tokens / shares / status, SharesFromTokens / TokensFromShares with LegacyDec truncation, first delegation to an empty validator, last share takes all tokens, max-entries rule, operator jailing, removal of an unbonded validator): theorems that the owner\'s precompile route (decoding, identity rule, message, Delegate event computed after the message, mirror + final commit) equals the native route in success and resulting numbers for all states and amounts, delegation to an emptied validator succeeds with shares = tokens, round-trip bounds; driver stakestates compares both routes on unusual states by a full store diff and the model\'s numbers with both routes',
+    'level_note': 'partial: interpreter and SDK keepers are modelled not verified; redelegate / cancelUnbondingDelegation / distribution methods in unusual states are covered by the differential store comparison only (no model of their arithmetic); the read-only methods (staking delegation / unbondingDelegation / validator, bank balances / totalSupply / supplyOf) are compared with keeper state by the evmquery driver (no model: they are projections); ICS-20: transfer of the bond denomination only; ICS-20 is not exercised',
     'technique': 'Coq proof over a StateDB/precompile model + differential correspondence on generated EVM call trees',
 }
